@@ -191,7 +191,10 @@ PARAM_WORDS = ('note=1', 'note=', 'note', '=1', 'note=abc', 'note=128',
                'data=(1)', 'time=1.5', 'time=abc', 'time=-2', 'time=1e3',
                'pitch=-8192', 'pitch=8192', 'pos=16383', 'note=0x10',
                'note=1=2', 'type=clock', 'time=', 'data=', 'data=(1,2)x',
-               'data=x(1,2)', 'skip_checks=1', 'skip_checks=0', 'note=999')
+               'data=x(1,2)', 'skip_checks=1', 'skip_checks=0', 'note=999',
+               # values equal to the defaults
+               'channel=0', 'velocity=64', 'note=0', 'time=0', 'pos=0',
+               'pitch=0', 'time=0.0', 'velocity=064')
 
 
 def ref_parse_line(text):
@@ -454,8 +457,50 @@ def worker(shard):
                     check_eval_repr(mido, mido.MidiFile(
                         type=type_, ticks_per_beat=tpb, tracks=[a, b]), acc, ns,
                         f'MidiFile[tracks=2,len={len(a)}+{len(b)}]', file_eq)
+        # long content inside containers: every meta sample and long
+        # text/sysex/data, alone, doubled, among notes, in long tracks and in
+        # files with several tracks
+        MM = mido.MetaMessage
+        longs = list(metas) + [
+            MM('text', text='lorem ipsum ' * 20),
+            MM('lyrics', text=' ' * 150),
+            MM('marker', text="it's a \"quoted\" phrase, " * 12, time=7),
+            MM('track_name', name=('word ' * 23).strip()),
+            MM('text', text='x' * 119 + ' ' + 'y' * 119),
+            MM('copyright', text='line one\nline two ' * 15),
+            MM('sequencer_specific', data=tuple(range(256)) * 2),
+            mido.UnknownMetaMessage(0x60, data=(7,) * 300, time=1),
+            mido.Message('sysex', data=(1, 2, 3) * 200, time=2),
+            mido.Message('sysex', data=(0,) * 1000),
+        ]
+        note = mido.Message('note_on', note=60, time=1)
+        for x in longs:
+            label = f'long:{x.type}'
+            variants = [[x], [x, x.copy()], [note.copy(), x],
+                        [x, MM('end_of_track')],
+                        [note.copy(), x, note.copy(), x.copy(), note.copy()]]
+            for v in variants:
+                tr = mido.MidiTrack(m.copy() for m in v)
+                check_eval_repr(mido, tr, acc, ns,
+                                f'MidiTrack[{label},len={len(v)}]', track_eq)
+                check_eval_repr(mido, mido.MidiFile(tracks=[
+                    tr, mido.MidiTrack([note.copy()]),
+                    mido.MidiTrack(m.copy() for m in v)]), acc, ns,
+                    f'MidiFile[{label},tracks=3]', file_eq)
+        for n in (5, 6, 10, 17, 100, 1000):
+            tr = mido.MidiTrack(
+                longs[i % len(longs)].copy() if i % 7 == 3
+                else mido.Message('note_on', note=i % 128, time=i % 5)
+                for i in range(n))
+            check_eval_repr(mido, tr, acc, ns, f'MidiTrack[len={n}]', track_eq)
+            check_eval_repr(mido, mido.MidiFile(
+                type=1, tracks=[tr] + [mido.MidiTrack(tr[:k])
+                                        for k in range(min(n, 9))]),
+                acc, ns, f'MidiFile[tracks={1 + min(n, 9)},len={n}]', file_eq)
         acc.sample({'containers': 'meta messages, frozen variants, tracks of '
-                    'length 0..4, files with 0..2 tracks'}, cap=1)
+                    'length 0..4, files with 0..2 tracks; long text / data in '
+                    'tracks; tracks of up to 1000 messages; files of up to 10 '
+                    'tracks'}, cap=1)
     elif kind == 'lines':
         first = shard[1]
         check_line(mido, first, acc)
